@@ -49,11 +49,12 @@ type svec struct {
 	Delivered int      `json:"delivered"`
 	Final     string   `json:"final"`
 	// id
-	Transport string   `json:"transport"`
-	Inbox     []string `json:"inbox"`
-	DL        int      `json:"dl"`
-	Res       string   `json:"res"`
-	Idx       int      `json:"idx"`
+	Transport string    `json:"transport"`
+	Inbox     []string  `json:"inbox"`
+	DL        int       `json:"dl"`
+	Res       string    `json:"res"`
+	Idx       int       `json:"idx"`
+	Kinds     []kindAdm `json:"kinds"`
 	// set by the harness in replay files: run only this path
 	Path string `json:"path,omitempty"`
 }
@@ -96,6 +97,17 @@ func (v *svec) stream() (wire []byte, bodies [][]byte) {
 		wire = append(wire, frame(p)...)
 	}
 	return
+}
+
+type idRes struct {
+	Res string `json:"res"`
+	Idx int    `json:"idx"`
+}
+
+// a real transport kind the reply-ID case applies to, with the results the spec admits for it
+type kindAdm struct {
+	K        string  `json:"k"`
+	Admitted []idRes `json:"admitted"`
 }
 
 type runner struct {
@@ -785,6 +797,193 @@ func (r *runner) id(v *svec, i int) {
 		r.paths["id-real"]++
 		r.idReal(v, i)
 	}
+	// every real transport kind the spec names for this case, on sockets of that kind
+	for _, ka := range v.Kinds {
+		via := "socket:" + ka.K
+		if v.Path != "" && v.Path != via {
+			continue
+		}
+		waits := false
+		for _, a := range ka.Admitted {
+			if a.Res == "timeout" {
+				waits = true
+			}
+		}
+		if v.Path == "" {
+			if waits && !(len(v.Inbox) <= 1 || i%50 == 0) {
+				continue // each of these costs a real deadline
+			}
+			if !waits && !(len(v.Inbox) <= 2 || i%5 == 0) {
+				continue
+			}
+		}
+		r.enter(v, via)
+		r.idKind(v, i, ka, waits)
+	}
+}
+
+type wrapUnix struct{ *net.UnixConn }
+type wrapUDP struct{ *net.UDPConn }
+type wrapTCP struct{ *net.TCPConn }
+
+var sockDir string
+var sockSeq int
+
+func sockPath(tag string) string {
+	if sockDir == "" {
+		d, err := os.MkdirTemp("", "vx")
+		if err != nil {
+			hx.Die("temp dir: %v", err)
+		}
+		sockDir = d
+	}
+	sockSeq++
+	return fmt.Sprintf("%s/%s%d", sockDir, tag, sockSeq)
+}
+
+// idKind: the peer sends the first dl replies of the inbox over a real socket of the given kind.
+func (r *runner) idKind(v *svec, i int, ka kindAdm, waits bool) {
+	q := newQuery(i)
+	var replies [][]byte
+	for k := 0; k < v.DL; k++ {
+		replies = append(replies, idReply(q, v.Inbox[k], k+1))
+	}
+	stop := make(chan struct{})
+	defer close(stop)
+	var conn net.Conn
+	var err error
+	framed := true
+	skip := func(e error) {
+		r.paths["id-socket-skipped:"+ka.K]++
+		_ = e
+	}
+	switch ka.K {
+	case "tcp", "tcpwrapped", "unix", "unixwrapped", "unixpacket":
+		network, addr := "tcp", "127.0.0.1:0"
+		if ka.K == "unix" || ka.K == "unixwrapped" {
+			network, addr = "unix", sockPath("s")
+		}
+		if ka.K == "unixpacket" {
+			network, addr, framed = "unixpacket", sockPath("p"), false
+		}
+		l, e := net.Listen(network, addr)
+		if e != nil {
+			skip(e)
+			return
+		}
+		defer l.Close()
+		go func() {
+			c, e := l.Accept()
+			if e != nil {
+				return
+			}
+			defer c.Close()
+			if framed {
+				if _, e := readFrame(c); e != nil {
+					return
+				}
+			} else if _, e := c.Read(make([]byte, 4096)); e != nil {
+				return
+			}
+			for _, p := range replies {
+				if framed {
+					c.Write(frame(p))
+				} else {
+					c.Write(p)
+				}
+			}
+			<-stop
+		}()
+		conn, err = net.Dial(network, l.Addr().String())
+		if err == nil {
+			switch ka.K {
+			case "unixwrapped":
+				conn = wrapUnix{conn.(*net.UnixConn)}
+			case "tcpwrapped":
+				conn = wrapTCP{conn.(*net.TCPConn)}
+			}
+		}
+	case "udp", "udpwrapped":
+		pc, e := net.ListenUDP("udp", &net.UDPAddr{IP: net.IPv4(127, 0, 0, 1)})
+		if e != nil {
+			skip(e)
+			return
+		}
+		defer pc.Close()
+		go func() {
+			_, from, e := pc.ReadFromUDP(make([]byte, 4096))
+			if e != nil {
+				return
+			}
+			for _, p := range replies {
+				pc.WriteToUDP(p, from)
+			}
+		}()
+		conn, err = net.Dial("udp", pc.LocalAddr().String())
+		if err == nil && ka.K == "udpwrapped" {
+			conn = wrapUDP{conn.(*net.UDPConn)}
+		}
+	case "unixgram":
+		sa := &net.UnixAddr{Name: sockPath("g"), Net: "unixgram"}
+		pc, e := net.ListenUnixgram("unixgram", sa)
+		if e != nil {
+			skip(e)
+			return
+		}
+		defer pc.Close()
+		go func() {
+			_, from, e := pc.ReadFromUnix(make([]byte, 4096))
+			if e != nil {
+				return
+			}
+			for _, p := range replies {
+				pc.WriteToUnix(p, from)
+			}
+		}()
+		conn, err = net.DialUnix("unixgram", &net.UnixAddr{Name: sockPath("c"), Net: "unixgram"}, sa)
+	default:
+		hx.Die("unknown transport kind %q in vector", ka.K)
+	}
+	if err != nil {
+		skip(err)
+		return
+	}
+	r.sum.Evaluations++
+	r.paths["id-socket:"+ka.K]++
+	cl := &dns.Client{Timeout: 3 * time.Second}
+	if waits {
+		cl.Timeout = 150 * time.Millisecond
+	}
+	co := &dns.Conn{Conn: conn}
+	m, _, xerr := cl.ExchangeWithConn(q, co)
+	co.Close()
+	// what was observed, in the spec's vocabulary
+	obs := idRes{Res: "error"}
+	switch {
+	case xerr == nil && m.Id == q.Id:
+		obs = idRes{"ok", replyIdx(m)}
+	case xerr == nil:
+		obs = idRes{"foreign", replyIdx(m)}
+	case xerr == dns.ErrId:
+		obs = idRes{"errid", 1}
+	case isTimeout(xerr):
+		obs = idRes{"timeout", 0}
+	}
+	for _, a := range ka.Admitted {
+		if a == obs {
+			return
+		}
+	}
+	lossy := ka.K == "udp" || ka.K == "udpwrapped" || ka.K == "unixgram"
+	if lossy && obs.Res == "timeout" {
+		r.paths["id-socket-lost:"+ka.K]++ // a datagram may be lost: not an observation
+		return
+	}
+	// not admitted: name the clause through the first admitted result
+	w := *v
+	w.Res, w.Idx = ka.Admitted[0].Res, ka.Admitted[0].Idx
+	w.Transport = v.Transport + ":" + ka.K
+	r.judgeID(&w, "socket:"+ka.K, q, m, xerr)
 }
 
 func replay(path string) {
@@ -816,6 +1015,9 @@ func replay(path string) {
 	r.rsrv.srv.ShutdownContext(ctx) // a connection goroutine left behind by a judged scenario must not keep us
 	r.wsrv.srv.ShutdownContext(ctx)
 	cancel()
+	if sockDir != "" {
+		os.RemoveAll(sockDir)
+	}
 	sum.Nontrivial = len(seen)
 	sum.Note("exchange_replay_paths", r.paths)
 	sum.Print()
@@ -841,6 +1043,8 @@ type xEvent struct {
 	Req2  *reqFields `json:"req2,omitempty"` // handle: after k later packets were received
 	Same  bool       `json:"same"`           // handle: Pack() on entry == Pack() later
 	Later int        `json:"later"`          // handle: packets received while waiting
+	Wire  hx.B       `json:"wire,omitempty"` // send: the octets written; handle: Pack() of the request on entry
+	Len   int        `json:"len"`            // recv: number of octets the server's reader returned
 	Buf   int        `json:"buf"`            // get, put, recv: receive buffer (small number per backing array; 0 = not pooled)
 	Inst  int        `json:"inst"`           // recv: c*8+round read from the ID field of the octets as they came off the wire
 }
@@ -862,12 +1066,40 @@ func instName(c, round int) string {
 	return "c" + letter(c/8) + letter(c%8) + "r" + letter(round) + ".exch."
 }
 func instIP(c, round int) net.IP { return net.IPv4(10, byte(c), byte(round), byte(c+round)).To4() }
+
+// Requests differ widely in size, per client and over time: the token RR is padded so that the whole request has
+// between reqBase and 512 octets (512 = the server's receive buffer, Server.UDPSize = MinMsgSize).
+const reqBase = 73 // octets of a request whose token has no padding (all names have the same length)
+const padMax = 512 - reqBase
+
+func padLen(c, round int) int {
+	switch round % 4 {
+	case 0:
+		return c % 6 // small
+	case 1:
+		return padMax - c%3 // at and just below the buffer size, right after the small ones
+	case 2:
+		return (c*37 + round*101) % (padMax + 1)
+	}
+	if c%2 == 0 {
+		return padMax
+	}
+	return 0
+}
+
 func instTok(c, round int) []byte {
-	return []byte{byte(c), byte(round), byte(c*7 + round), byte(255 - c)}
+	t := []byte{byte(c), byte(round), byte(c*7 + round), byte(255 - c)}
+	for i := 1; i <= padLen(c, round); i++ {
+		t = append(t, byte(c*13+round*7+i))
+	}
+	return t
 }
 func instID(c, round int) uint16 { return uint16(1000 + c*8 + round) }
 
 func replyTok(t []byte) []byte {
+	if len(t) > 4 {
+		t = t[:4]
+	}
 	r := make([]byte, len(t))
 	for i, b := range t {
 		r[len(t)-1-i] = b + 1
@@ -993,7 +1225,7 @@ func (b *bufIDs) of(p uintptr) int {
 // a message came off the wire into m: log which buffer holds it, whose address it came from and which
 // exchange its ID field names (raw octets, before any decoding)
 func (h *exHandler) recv(m []byte, from net.Addr, pooled bool) {
-	e := xEvent{Ev: "recv", Tr: h.tr, C: -1, Inst: -1}
+	e := xEvent{Ev: "recv", Tr: h.tr, C: -1, Inst: -1, Len: len(m)}
 	if v, ok := h.addrs.Load(from.String()); ok {
 		e.C = v.(int)
 	}
@@ -1071,7 +1303,7 @@ func (h *exHandler) ServeDNS(w dns.ResponseWriter, m *dns.Msg) {
 	if v, ok := h.addrs.Load(w.RemoteAddr().String()); ok {
 		c = v.(int)
 	}
-	h.log.emit(xEvent{Ev: "handle", Tr: h.tr, C: c, Req1: f1, Req2: f2, Same: e1 == nil && e2 == nil && bytes.Equal(p1, p2), Later: later})
+	h.log.emit(xEvent{Ev: "handle", Tr: h.tr, C: c, Req1: f1, Req2: f2, Same: e1 == nil && e2 == nil && bytes.Equal(p1, p2), Later: later, Wire: hx.FromBytes(p1)})
 	r := new(dns.Msg)
 	r.SetReply(m)
 	r.Extra = []dns.RR{&dns.TXT{Hdr: dns.RR_Header{Name: "tok.", Rrtype: dns.TypeTXT, Class: dns.ClassINET, Ttl: 1}, Txt: []string{hex.EncodeToString(replyTok(f2.Tok.Bytes()))}}}
@@ -1166,9 +1398,13 @@ func record(tr, out string, N, R int) {
 			<-begin
 			for round := 0; round < R; round++ {
 				req := mkRequest(c, round)
+				wire, err := req.Pack()
+				if err != nil || len(wire) != reqBase+padLen(c, round) {
+					hx.Die("request of client %d round %d: %d octets, planned %d (%v)", c, round, len(wire), reqBase+padLen(c, round), err)
+				}
 				ok := false
 				for try := 0; try < 4 && !ok; try++ {
-					lg.emit(xEvent{Ev: "send", Tr: tr, C: c, Round: round, Try: try, Req: fieldsOf(req)})
+					lg.emit(xEvent{Ev: "send", Tr: tr, C: c, Round: round, Try: try, Req: fieldsOf(req), Wire: hx.FromBytes(wire)})
 					rep, _, err := cl.ExchangeWithConn(req, co)
 					if err != nil {
 						lg.emit(xEvent{Ev: "lost", Tr: tr, C: c, Round: round, Try: try})
